@@ -338,6 +338,17 @@ unqualtype(struct type *t)
 	return new;
 }
 
+/* the rest of the block is the scope of an identifier with variably modified type */
+static void
+vmscope(struct scope *s)
+{
+	struct vmscope *vm;
+
+	vm = xmalloc(sizeof(*vm));
+	vm->parent = s->vm;
+	s->vm = vm;
+}
+
 static struct qualtype
 declspecs(struct scope *s, enum storageclass *sc, enum funcspec *fs, int *align)
 {
@@ -1073,8 +1084,10 @@ decl(struct scope *s, struct func *f)
 			else if (!typesame(prior->type, t) || prior->qual != tq)
 				error(&tok.loc, "typedef '%s' redefined with different type", name);
 			/* the size expressions of a variably modified type are evaluated where the typedef is (6.8p3) */
-			if (f && t->prop & PROPVM)
+			if (f && t->prop & PROPVM) {
 				calcvla(f, t);
+				vmscope(s);
+			}
 			break;
 		case DECLOBJECT:
 			if (align && align < t->align)
@@ -1084,6 +1097,8 @@ decl(struct scope *s, struct func *f)
 				d->u.obj.align = align;
 			if (d->linkage == LINKNONE && !(sc & SCSTATIC)) {
 				d->u.obj.storage = SDAUTO;
+				if (f && t->prop & PROPVM)
+					vmscope(s);
 			} else {
 				if (d->value && (d->u.obj.storage == SDTHREAD) != !!(sc & SCTHREADLOCAL))
 					error(&tok.loc, "object '%s' redeclared with different storage duration", name);
